@@ -63,6 +63,22 @@ CHECKS = {
    note="Trusted: chapter-10 message table transcribed in model.rs; handshake-level aborts are retried by design and not part of the seven anchored places."),
 }
 
+# Elements added after the table above was written (rounds 4-5 of seeded changes); appended to the level text.
+ADDED = {
+ "C02": " Also: the byte at every offset rewritten as a BER length prefix in every long / non-minimal form; harness built with debug assertions and overflow checks on.",
+ "C04": " Also: transient read errors (EINTR / EAGAIN / ETIMEDOUT) at every byte offset, frames the parser refuses, an acknowledgement that carries data, stalls of 1 ms..1 h at every offset on the simulated clock.",
+ "C05": " Also: identical packets in a row, optional command fields, terminal pauses and malformed replies as script elements.",
+ "C15": " Also: the parser seam called directly with inconsistent buffers, the connection ending inside a reply at every byte, pauses after each byte of a reply.",
+ "C11": " Also: file-system faults through the file hook (open / read errors, short reads), symbolic links, terminal pauses at every byte position.",
+ "C07": " Also: near-identical and common-prefix tokens, a slow terminal and packets in two pieces inside begin_transaction, refused calls while the terminal is unreachable.",
+ "C08": " Also: second rounds with the same tokens, refused commits retried, every repetition of the reversal judged, a commit that returns Ok must have reached the terminal with the receipt issued for that token.",
+ "C09": " Also: read errors of every kind as failures, a slow but healthy terminal (no needless reconnect), identity request aborted, connection closed while idle.",
+ "C10": " Also: status packets with every time-out byte, every card form without any stall, stale bytes behind every frame, configuration values beyond the wire range.",
+ "C18": " Also: intermediate statuses with codes outside the table, read_card_timeout extremes, a card delivered on the retried exchange.",
+ "C19": " Also: seven forms of the pending answer (explicit receipt 0000 / 9999, TLV lists that repeat or do not repeat the BMP-87 receipt), clean close between the exchanges of the clean-up, commit amounts 0..u64::MAX.",
+ "C20": " Also: aborts arriving late or with the configured time at 0 / 254 / 255, abort packets in two pieces with a pause, an aborted reversal of a dangling pre-authorisation, long scripts before the abort.",
+}
+
 NOT_APPLICABLE = {
  "C01": "pure function value -> bytes -> value of the codec: no schedule, clock, peer, fault or history for a simulator to own; enumerating its input domain would be property-based testing under another name (DESIGN 7)",
  "C03": "pure function, both directions, against a layout table: no nondeterminism or fault in it; the reference codec only covers the ~30 packet layouts that travel on the simulated wire, as an oracle component (DESIGN 7)",
@@ -86,7 +102,7 @@ def main():
             "evidence_file": f"/verif/evidence/{pid}.json",
             "replay_cmd_template": "./run.sh replay {path}",
             "engine": c["engine"],
-            "level_claimed": {"category": c["level"], "text": c["text"], "design_ref": "DESIGN.md section " + c["ref"]},
+            "level_claimed": {"category": c["level"], "text": c["text"] + ADDED.get(pid, ""), "design_ref": "DESIGN.md section " + c["ref"]},
             "level_note": c["note"],
             "technique": c["technique"],
         })
